@@ -230,6 +230,11 @@ func genFuzzCase(r *rand.Rand, bias string) FuzzCase {
 				cc += ", only-if-cached"
 			}
 			h["Cache-Control"] = []string{cc}
+			if parts := strings.Split(cc, ", "); len(parts) > 1 && chance(r, 0.3) {
+				h["Cache-Control"] = parts // one directive per field line
+			} else if chance(r, 0.1) {
+				h["Cache-Control"] = []string{"x-ext=1", cc}
+			}
 		}
 		if chance(r, 0.4) {
 			h["X-A"] = []string{pick(r, []string{"1", "2", "1X-B", "1, 2", ""})}
@@ -292,13 +297,13 @@ func fuzzHandler(c *FuzzCase, counts []int) sim.Handler {
 			matches := (inm != "" && inm == spec.ETag) || (inm == "" && ims != "" && spec.LastMod != "")
 			switch mode := fr.OnCond[e]; {
 			case mode == "err":
-				return Render(&RespSpec{Err: true}, uc.Enter, uc.Serial)
+				return Render(&RespSpec{Err: true, DelayS: pick2(k, []float64{0, 0, 3, 7})}, uc.Enter, uc.Serial)
 			case mode == "500" || mode == "503":
 				st := 500
 				if mode == "503" {
 					st = 503
 				}
-				return Render(&RespSpec{Status: st, BodySize: 4, CC: pick2(k, [][]string{nil, {"stale-if-error=60"}})}, uc.Enter, uc.Serial)
+				return Render(&RespSpec{Status: st, BodySize: 4, CC: pick2(k, [][]string{nil, {"stale-if-error=60"}}), DelayS: pick2(k, []float64{0, 4, 0, 2})}, uc.Enter, uc.Serial)
 			case matches && strings.HasPrefix(mode, "304"):
 				r304 := RespSpec{Status: 304, ETag: spec.ETag, Date: spec.Date, Vary: spec.Vary}
 				if k%4 == 1 {
@@ -418,6 +423,13 @@ func fuzzDriver(r *run.Runner, prop string, n int) {
 				ante("C02", a2, "validation-demanded")
 				v2r, nval := mon.C02Request(w, in)
 				report(v2r)
+				if prop == "C16" {
+					for _, v := range v2r {
+						if v.Clause == "request-mutated" || v.Clause == "upstream-request" {
+							r.Violation(v.Clause, v.Sig, v.Msg, exSummaries(w))
+						}
+					}
+				}
 				ante("C02", nval > 0, "validation-request")
 				v3, a3, cls := mon.C03(w, in)
 				report(v3)
